@@ -55,7 +55,7 @@ type queryAnswer struct {
 // query runs one query op on the main context (a query that wrote to the store
 // would show in the state lines) and fills the R and Q lines.
 func (s *Sim) query(res *StepResult, op *Op) error {
-	via, kind := op.enum("via", "grpc", "legacy"), op.raw("kind")
+	via, kind := op.enum("via", "grpc", "legacy", "client"), op.raw("kind")
 	var a queryArgs
 	for _, f := range queryFields[kind] {
 		switch f {
@@ -86,6 +86,8 @@ func (s *Sim) query(res *StepResult, op *Op) error {
 	var name string // error name, empty on success
 	if via == "grpc" {
 		ans, name = s.queryGRPC(kind, a)
+	} else if via == "client" {
+		ans, name = s.queryClient(kind, a)
 	} else {
 		ans, name = s.queryLegacy(kind, a)
 	}
